@@ -848,8 +848,14 @@ class FlatSamplerCache:
 
     def get_flat_sampler(self, *args, **kwargs):
         """Get or create the flattened sampler for these arguments."""
-        # Simple caching based on argument signature
-        args_sig = (len(args), tuple(kwargs.keys()))
+        # The staged sampler is specialised to the arguments it was traced with,
+        # so the cache is keyed on their pytree structure, shapes and dtypes
+        # (a binder can be used for several sites with different parameters).
+        leaves, treedef = jtu.tree_flatten((args, kwargs))
+        args_sig = (
+            treedef,
+            tuple((jnp.shape(leaf), jnp.result_type(leaf)) for leaf in leaves),
+        )
         if self._cached_args_signature != args_sig:
             keyful_with_shape = self.config.get_keyful_sampler_with_shape()
             flat_sampler, _ = self._make_flat(keyful_with_shape)(
